@@ -540,6 +540,13 @@ def standard_check(ctx, spec):
     cause.extend(ccause)
     ctx.notes.extend("consts: " + n for n in cinfo["notes"])
 
+    # 1c. property-specific obligations: spec["extra_checks"] = [callable(ctx) -> (causes, notes)]; a cause
+    #     ("corr:..." / "theorem:...") is a broken obligation like any other (search, then VIOLATION)
+    for fn in spec.get("extra_checks", []):
+        xc, xn = fn(ctx)
+        cause.extend(xc)
+        ctx.notes.extend(xn)
+
     # 2. harness
     binp, blog = go_build(ctx, spec["driver"])
     if binp is None:
